@@ -559,7 +559,11 @@ class SourceHandler:
         if self._put_req.msgs_to_user is None:
             return None
         for msgs_to_user in self._put_req.msgs_to_user:
-            if msgs_to_user.is_reserved_cfdp_message():
+            # A message to user is arbitrary binary data. The bytes are compared directly because
+            # MessageToUserTlv.is_reserved_cfdp_message() decodes them and raises an
+            # UnicodeDecodeError for a message which does not start with valid UTF-8.
+            value = msgs_to_user.tlv.value
+            if len(value) >= 5 and bytes(value[0:4]) == b"cfdp":
                 reserved_cfdp_msg = msgs_to_user.to_reserved_msg_tlv()
                 if reserved_cfdp_msg.is_originating_transaction_id():
                     contains_originating_id = True
